@@ -7,6 +7,7 @@ import (
 
 	"github.com/alpacahq/marketstore/v4/utils"
 	"github.com/alpacahq/marketstore/v4/utils/io"
+	"github.com/alpacahq/marketstore/v4/utils/verifhook"
 )
 
 func (r *Reader) readSecondStage(bufMeta []bufferMeta) (rb []byte, err error) {
@@ -49,6 +50,7 @@ func (r *Reader) readSecondStage(bufMeta []bufferMeta) (rb []byte, err error) {
 		}
 
 		numIndexRecords = len(indexBuffer) / 24 // Three fields, {epoch, offset, len}, 8 bytes each
+		verifhook.At("reader.stage2.begin")
 		// rb = make([]byte, 0)
 		rb = make([]byte, totalDatalen)
 		var rbCursor int
